@@ -338,7 +338,11 @@ func (fc *FnCtx) callByContract(instr ssa.Instruction, name string, con *Contrac
 		fc.growAlloc(st)
 	} else if con.HasAssigns {
 		if !con.Trusted && fn != nil {
-			fc.note("frame of " + name + " taken from its assigns clause (assumed, not checked against its body)")
+			if ok, why := fc.eng.frameConfirmedCached(con, fn); ok {
+				fc.note("frame of " + name + " taken from its assigns clause (confirmed against its body by the write-effect analysis)")
+			} else {
+				fc.note("frame of " + name + " taken from its assigns clause (ASSUMED, not confirmed against its body: " + why + ")")
+			}
 		}
 		for _, a := range con.Assigns {
 			for _, k := range fc.eng.resolveAssign(con, a, fc) {
